@@ -13,4 +13,4 @@ git -C $w apply $d/patch.diff || { echo "patch does not apply"; exit 2; }
 if [ -n "$demo" ]; then
   (cd $w && PYTHONPATH=$w timeout 600 /venv/bin/python $demo >/dev/null 2>&1); echo "demo on mutant: exit $?"
 fi
-cd /verif && VERIF_REPO=$w ./check $id --tier $tier; echo "check exit $?"
+cd "$(dirname "$0")/.." && VERIF_REPO=$w ./check $id --tier $tier; echo "check exit $?"
